@@ -734,9 +734,10 @@ impl Emitter {
   }
 
   pub fn encode_bit_test_indirect(&self, mask: u8, ip_increment: usize, exec: &mut [u8]) -> usize {
-    let mut len = emit_hl_indirect_partial_read(self.mem as usize, exec);
+    let mut len = emit_push_register(X86Reg64::RDX, exec);
+    len += emit_hl_indirect_read(self.mem as usize, &mut exec[len..]);
     len += emit_bit_test(X86Reg8::DL, mask, &mut exec[len..]);
-    len += emit_hl_indirect_partial_write(self.mem as usize, &mut exec[len..]);
+    len += emit_pop_register(X86Reg64::RDX, &mut exec[len..]);
     len += emit_ip_increment(ip_increment, &mut exec[len..]);
     len + emit_cycle_increment(3, &mut exec[len..])
   }
